@@ -37,6 +37,8 @@ def make_case(rc):
             out = I.eval_formula('=A1%', {'A1': x}, addr='H9')
         elif via == 'override':
             out = I.eval_formula('=A1%', {'A1': 1}, addr='H9', overrides=[I.Cell(0, 0, 0, x)])
+        elif via == 'override_far':
+            out = I.eval_formula('=K20%', {'A1': 1}, addr='H9', overrides=[I.Cell(0, 10, 19, x)])
         else:
             out = I.eval_formula('=%s%%' % dec_str(False, mant, scale), {}, addr='H9')
     else:
@@ -46,6 +48,8 @@ def make_case(rc):
             out = I.eval_formula('=%s(A1,B1)' % fn, {'A1': x, 'B1': n}, addr='H9')
         elif via == 'override':
             out = I.eval_formula('=%s(A1,B1)' % fn, {'A1': 1, 'B1': 0}, addr='H9', overrides=[I.Cell(0, 0, 0, x), I.Cell(0, 1, 0, n)])
+        elif via == 'override_far':     # the operands are blank cells BEYOND the used range of the sheet; the overrides put values there
+            out = I.eval_formula('=%s(K20,L21)' % fn, {'A1': 1}, addr='H9', overrides=[I.Cell(0, 10, 19, x), I.Cell(0, 11, 20, n)])
         else:   # literal number and literal digit count, either of them possibly written with a minus sign
             out = I.eval_formula('=%s(%s%s,%d)' % (fn, '-' if neg else '', dec_str(False, mant, scale), n), {}, addr='H9')
     coq = 'CR %s {| dneg := %s; dmant := %s; dscale := %s |} %s %s %s' % (
@@ -69,7 +73,7 @@ def gen_recipes(rng, n):
         neg = rng.random() < 0.35 and mant != 0
         fn = rng.choice(['ROUND', 'ROUND', 'ROUNDUP', 'ROUNDDOWN', 'PERCENT'])
         nd = rng.randint(-3, 6)
-        via = rng.choice(['direct', 'direct', 'cell', 'override', 'literal'])
+        via = rng.choice(['direct', 'direct', 'cell', 'override', 'override_far', 'literal'])
         if fn == 'PERCENT' and via == 'direct':
             via = 'cell'
         if via == 'literal' and ((fn == 'PERCENT' and neg) or not literal_faithful(mant, scale)):      # -x% is C01's business (sign scope)
